@@ -110,6 +110,22 @@ def build_entry(sch, edir, configs, header_configs, sbeppc):
             _save(edir, st)
             return st
         st["configs"].append(cfg_name(cfg))
+    # an unchecked (release-like: SBEPP_DISABLE_ASSERTS, -O2 -DNDEBUG) driver in the first config: value-level checks also run
+    # against the code paths that exist only when size checks are compiled out
+    if configs:
+        cfg = configs[0]
+        src_nc = os.path.join(edir, "driver_nc.cpp")
+        with open(src_nc, "w") as f:
+            f.write(drivergen.Gen(M, checked=False).generate())
+        exe = os.path.join(edir, "driver-" + cfg_name(cfg) + "-nc")
+        r = run_compile(compile_cmd(cfg, out_dir, src_nc, exe, opt="-O2", extra=["-DNDEBUG"]))
+        if r.returncode != 0:
+            st["errors"] = first_errors(r.stdout.decode(errors="replace"))
+            st["signature"] = "touch-everything-tu-does-not-compile"
+            st["failed_config"] = cfg_name(cfg) + "-nc"
+            _save(edir, st)
+            return st
+        st["nc_configs"] = [cfg_name(cfg) + "-nc"]
     st["ok"] = True
     st["stage"] = "done"
     st["features"] = sorted(M.features())
@@ -193,6 +209,10 @@ class Entry:
 
     def driver(self, cfgname):
         return os.path.join(self.dir, "driver-" + cfgname)
+
+    def value_configs(self):
+        """configs for value-level checks: the checked drivers plus the unchecked (release-like) one"""
+        return list(self.status["configs"]) + list(self.status.get("nc_configs", []))
 
 
 class Pool:
